@@ -2682,7 +2682,7 @@ spec(lean="sort_tree_", module="AlgoRedirect", file=_TU, func="_sort_tree", tree
      vars={"ids": "List Int", "pids": "List Int", "types": "List Int", "new_ids": "List Int", "new_pids": "List Int", "id_map": "List Int"},
      ret="Unit", out=["ids", "pids", "types"], fuel=True, tree_cols=_TCOLS, subst={"tree": ("()", "Unit")},
      stmt_subst={"tree.ndata = {k: tree.ndata[k][id_map] for k in tree.ndata}": "ids = ids[id_map]\npids = pids[id_map]\ntypes = types[id_map]",
-                 "tree.ndata.update(id=new_ids, pid=new_pids)": "ids = new_ids\npids = new_pids"},
+                 "tree.ndata[tree.names.id] = new_ids": "ids = new_ids", "tree.ndata[tree.names.pid] = new_pids": "pids = new_pids"},
      doc="`swcgeom/core/tree_utils.py::_sort_tree` (the tree is its columns `ids`, `pids`, `types`: every column is gathered by `id_map`, "
          "then the two topology columns are replaced)")
 spec(lean="redirect_tree", module="AlgoRedirect", file=_TU, func="redirect_tree",
